@@ -8,8 +8,8 @@ use repe::{AsyncClient, AsyncServer, BodyFormat, NotifyBody, PeerRegistry, RepeE
 use repe_verif_harness::*;
 use serde_json::{Value, json};
 use std::future::Future;
-use std::sync::atomic::{AtomicUsize, Ordering};
-use std::sync::{Arc, Mutex};
+use std::sync::atomic::{AtomicBool, AtomicUsize, Ordering};
+use std::sync::{Arc, Condvar, Mutex, OnceLock};
 use std::time::Duration;
 use tokio::time::Instant;
 use tt::tungstenite::Message as WsMsg;
@@ -24,6 +24,8 @@ const T_CONN: Duration = Duration::from_secs(10);
 const T_MSG: Duration = Duration::from_secs(20);
 const GRACE: Duration = Duration::from_millis(200);
 const T_CASE: Duration = Duration::from_secs(50);
+/// exchanges per connection of a `conc` case
+const CONC_REPS: u64 = 200;
 
 fn hx(v: u64) -> String { format!("{v:x}") }
 fn ph(s: &str) -> Option<u64> { u64::from_str_radix(s, 16).ok() }
@@ -84,7 +86,7 @@ async fn to<F: Future>(d: Duration, what: &str, f: F) -> Result<F::Output, Strin
     tokio::time::timeout(d, f).await.map_err(|_| format!("timeout:{what}"))
 }
 
-struct Case { path: String, limit: Option<u64>, flen: u64, id: u64, qlen: Option<u64>, ec: u32, burst: bool }
+struct Case { path: String, limit: Option<u64>, flen: u64, id: u64, qlen: Option<u64>, ec: u32, burst: bool, pipe: bool, quit: bool, park: bool, conc: u64, reps: u64 }
 
 /// aborts the per-case server tasks when the case is over
 struct Tasks(Vec<tokio::task::JoinHandle<()>>);
@@ -110,6 +112,12 @@ impl Peer {
     fn saw(&self, id: u64) -> Option<&Vec<u8>> { self.seen.iter().find(|(i, _)| *i == id).map(|(_, b)| b) }
     async fn send(&mut self, f: Vec<u8>) -> Result<(), String> {
         to(T_CONN, "raw-send", self.ws.send(WsMsg::Binary(f))).await?.map_err(|e| format!("raw-send:{e}"))
+    }
+    fn count(&self, id: u64) -> usize { self.seen.iter().filter(|(i, _)| *i == id).count() }
+    /// several messages handed to the socket in one write, so that the server's reader finds them together
+    async fn send_together(&mut self, fs: Vec<Vec<u8>>) -> Result<(), String> {
+        for f in fs { to(T_CONN, "raw-feed", self.ws.feed(WsMsg::Binary(f))).await?.map_err(|e| format!("raw-feed:{e}"))?; }
+        to(T_CONN, "raw-flush", self.ws.flush()).await?.map_err(|e| format!("raw-flush:{e}"))
     }
     async fn pump(&mut self, until: Instant, done: impl Fn(&Peer) -> bool) {
         while self.dead.is_none() && !done(self) {
@@ -148,17 +156,21 @@ async fn run_server_path(c: &Case) -> Result<String, String> {
         _ => "/r".into(),
     };
     if c.burst && route != "/rb" { return Err("badcase:burst".into()); }
+    // pipe / quit: the two arrangements around a handler-pushed notify (see the message under test below)
+    if (c.pipe || c.quit) && (c.path != "push" || (c.pipe && c.quit)) { return Err("badcase:pipe-quit".into()); }
     let tlen = if is_notify { QLEN } else { route.len() as u64 };
     if c.flen < 48 + tlen { return Err("badcase:flen-too-small".into()); }
     let blen = (c.flen - 48 - tlen) as usize;
     if !is_notify && blen < 2 { return Err("badcase:flen-too-small".into()); }
     if is_notify && c.id != 0 { return Err("badcase:notify-id".into()); }
     let limits = limits_of(c.limit, c.id ^ c.flen, c.qlen.is_none());
-    let (trigger_id, marker_id, alive_id) = (c.id.wrapping_add(1), c.id.wrapping_add(2), c.id.wrapping_add(3));
+    let (trigger_id, marker_id, alive_id, prior_id) = (c.id.wrapping_add(1), c.id.wrapping_add(2), c.id.wrapping_add(3), c.id.wrapping_add(4));
+    let token = repe::ShutdownToken::new();
 
     let notify_body = Arc::new(if is_notify { pattern(blen) } else { vec![] });
     let push_res: Arc<Mutex<Option<Result<(), String>>>> = Arc::new(Mutex::new(None));
     let (nb, pr) = (notify_body.clone(), push_res.clone());
+    let (nb2, pr2, tk2) = (notify_body.clone(), push_res.clone(), token.clone());
     let rlen = if is_notify { 2 } else { blen };
     // ec != 0: the handler fails with that code; the error response's body is the message (UTF-8)
     let ec = c.ec;
@@ -180,6 +192,18 @@ async fn run_server_path(c: &Case) -> Result<String, String> {
                 None => Err("no-peer".to_string()),
             };
             *pr.lock().unwrap() = Some(r);
+            Ok(json!(1))
+        })
+        // quit: the handler pushes the notify under test, asks for the shutdown of its own connection
+        // (the ShutdownToken given to serve_connection_with_cancel) and answers: the outbound queue holds
+        // [notify, small reply] at the moment the shutdown is requested
+        .with_json_ctx("/pq", move |ctx, _| {
+            let r = match ctx.peer() {
+                Some(p) => p.send_notify("/n", NotifyBody::Raw((*nb2).clone(), BodyFormat::RawBinary)).map_err(|e| e.to_string()),
+                None => Err("no-peer".to_string()),
+            };
+            *pr2.lock().unwrap() = Some(r);
+            tk2.cancel();
             Ok(json!(1))
         });
     // the long route of this case (the router must know it before the server starts)
@@ -209,6 +233,21 @@ async fn run_server_path(c: &Case) -> Result<String, String> {
                 }
             }
         }));
+    } else if c.quit {
+        // an embedder-owned accept loop: the connection is served through serve_connection_with_cancel
+        let l = tokio::net::TcpListener::bind("127.0.0.1:0").await.map_err(|e| format!("ws-bind:{e}"))?;
+        addr = l.local_addr().map_err(|e| format!("ws-addr:{e}"))?;
+        let cnt = too_large.clone();
+        let shared = WebSocketServer::new(router).with_limits(limits).with_peer_registry(registry.clone()).on_error(move |err| {
+            if matches!(err, repe::ConnectionError::OutboundTooLarge { .. }) { cnt.fetch_add(1, Ordering::SeqCst); }
+        }).into_shared();
+        let tk = token.clone();
+        tasks.0.push(tokio::spawn(async move {
+            if let Ok((s, _)) = l.accept().await {
+                let _ = s.set_nodelay(true);
+                if let Ok(ws) = shared.accept(s, "/repe").await { let _ = shared.serve_connection_with_cancel(ws, &tk).await; }
+            }
+        }));
     } else {
         let l = WebSocketServer::listen("127.0.0.1:0").await.map_err(|e| format!("ws-bind:{e}"))?;
         addr = l.local_addr().map_err(|e| format!("ws-addr:{e}"))?;
@@ -220,7 +259,37 @@ async fn run_server_path(c: &Case) -> Result<String, String> {
     }
 
     let (ws, _) = to(T_CONN, "raw-connect", tt::connect_async_with_config(format!("ws://{addr}/repe"), Some(big_cfg()), true)).await?.map_err(|e| format!("raw-connect:{e}"))?;
-    let mut peer = Peer { ws, known: vec![trigger_id, marker_id, alive_id], seen: vec![], cands: vec![], dead: None };
+    let mut peer = Peer { ws, known: vec![trigger_id, marker_id, alive_id, prior_id], seen: vec![], cands: vec![], dead: None };
+    let small_reply = |id: u64, route: &[u8]| frame(0, id, 1, 2, 0, route, b"1");
+
+    if c.quit {
+        // ordinary traffic first, then the request whose handler queues [notify under test, small reply] and
+        // requests the shutdown. "Messages at or below the limit are delivered unchanged" and a dropped
+        // notification leaves the connection usable: whether the notify is delivered (at or below the limit)
+        // or dropped (above), the handler's own small reply, queued behind it before the shutdown was
+        // requested, must reach the peer before the close frame; `alive` reports exactly that.
+        peer.send(frame(0, marker_id, 1, 2, 0, b"/k", b"null")).await?;
+        peer.pump(Instant::now() + T_CONN, |p| p.saw(marker_id).is_some()).await;
+        let first = peer.saw(marker_id).is_some_and(|r| r.as_slice() == small_reply(marker_id, b"/k").as_slice());
+        peer.send(frame(0, trigger_id, 1, 2, 0, b"/pq", b"null")).await?;
+        // everything the server sends until it closes the connection
+        peer.pump(Instant::now() + T_MSG, |_| false).await;
+        match push_res.lock().unwrap().clone() {
+            Some(Ok(())) => {}
+            Some(Err(e)) => return Err(format!("push-send:{e}")),
+            None => return Err(format!("push-handler-not-run:dead={}", peer.dead.clone().unwrap_or_default())),
+        }
+        let reply = peer.saw(trigger_id).is_some_and(|r| r.as_slice() == small_reply(trigger_id, b"/pq").as_slice());
+        let sent = sent_token(&peer.cands, &frame(1, 0, 1, 0, 0, b"/n", &notify_body))?;
+        let n = too_large.load(Ordering::SeqCst);
+        let mut obs = format!("sent={} rep={} alive={}", sent, (n > 0) as u8, (first && reply) as u8);
+        if n > 1 { obs.push_str(&format!(" repn={}", hx(n as u64))); }
+        if !first { obs.push_str(" lost=first"); }
+        if !reply { obs.push_str(" lost=reply"); }
+        match &peer.dead { Some(d) => obs.push_str(&format!(" dead={}", clean(d))), None => obs.push_str(" noclose=1") }
+        return Ok(obs);
+    }
+    let mut prior_ok = true;
 
     // the message under test
     let expected: Vec<u8> = match c.path.as_str() {
@@ -230,6 +299,16 @@ async fn run_server_path(c: &Case) -> Result<String, String> {
             // an error response is built by create_error_response_like: the request's query is echoed
             // but the query-format field keeps the builder's default (0)
             else { frame(0, c.id, 0, BodyFormat::Utf8 as u16, c.ec, route.as_bytes(), "e".repeat(blen).as_bytes()) }
+        }
+        "push" if c.pipe => {
+            // one write carries [request with a small reply, notify-request whose handler pushes the notify
+            // under test]: the reader queues the small reply and the notify back to back. Nothing else is
+            // sent until that small reply has arrived: a message at or below the limit is delivered whether
+            // or not the message queued behind it is refused, also on a connection that then stays idle.
+            peer.send_together(vec![frame(0, prior_id, 1, 2, 0, b"/k", b"null"), frame(1, trigger_id, 1, 2, 0, b"/p", b"null")]).await?;
+            peer.pump(Instant::now() + T_CONN, |p| p.saw(prior_id).is_some()).await;
+            prior_ok = peer.saw(prior_id).is_some_and(|r| r.as_slice() == small_reply(prior_id, b"/k").as_slice());
+            frame(1, 0, 1, 0, 0, b"/n", &notify_body)
         }
         "push" => { peer.send(frame(0, trigger_id, 1, 2, 0, b"/p", b"null")).await?; frame(1, 0, 1, 0, 0, b"/n", &notify_body) }
         "broadcast" => {
@@ -268,20 +347,177 @@ async fn run_server_path(c: &Case) -> Result<String, String> {
     }
     let sent = sent_token(&peer.cands, &expected)?;
     let n = too_large.load(Ordering::SeqCst);
-    let mut obs = format!("sent={} rep={} alive={}", sent, (n > 0) as u8, alive as u8);
+    let mut obs = format!("sent={} rep={} alive={}", sent, (n > 0) as u8, (alive && prior_ok) as u8);
     if n > 1 { obs.push_str(&format!(" repn={}", hx(n as u64))); }
+    if !prior_ok { obs.push_str(" stuck=prior"); }
     if let Some(d) = &peer.dead { obs.push_str(&format!(" dead={}", clean(d))); }
     Ok(obs)
 }
 
+/// A `quit` case performs its scenario QUIT_ROUNDS times, each on a fresh server, connection and token
+/// (the order in which the connection task looks at its reader and at the cancellation is drawn by
+/// `tokio::select!` each time). The rounds are instances of one abstract case: they must all show the
+/// same message, report and liveness.
+const QUIT_ROUNDS: usize = 12;
+async fn run_quit_rounds(c: &Case) -> Result<String, String> {
+    let key = |o: &str| o.split(' ').take(3).collect::<Vec<_>>().join(" ");
+    let mut first: Option<String> = None;
+    for r in 0..QUIT_ROUNDS {
+        let obs = run_server_path(c).await?;
+        match &first {
+            None => first = Some(obs),
+            Some(f) if key(f) == key(&obs) => {}
+            Some(f) => return Err(format!("quit-rounds-differ:round0:{f}|round{r}:{obs}")),
+        }
+    }
+    first.ok_or_else(|| "quit-no-round".to_string())
+}
+
+// ---------------------------------------------------------------- many connections at once
+
+fn conc_runtime() -> &'static tokio::runtime::Runtime {
+    static RT: OnceLock<tokio::runtime::Runtime> = OnceLock::new();
+    RT.get_or_init(|| tokio::runtime::Builder::new_multi_thread().worker_threads(8).enable_all().build().unwrap())
+}
+
+/// `conc=K reps=M`: K connections of ONE server perform, at the same time, M exchanges each; every
+/// exchange is an instance of the case (an inline response, or a handler-pushed notify, of `flen` bytes).
+/// The K*M instances are instances of one abstract case, so they must all be observed alike: the same
+/// message (or none) for each, and a report for each or for none. The error hook does what a logging
+/// hook does: it renders the event and appends the line to a shared log.
+async fn run_conc(c: &Case) -> Result<String, String> {
+    let is_notify = c.path == "push";
+    if !is_notify && c.path != "inline" { return Err("badcase:conc-path".into()); }
+    if c.qlen.is_some() || c.ec != 0 || c.burst || c.pipe || c.quit || c.park { return Err("badcase:conc-switch".into()); }
+    let (k, m) = (c.conc as usize, c.reps as usize);
+    if !(2..=32).contains(&k) || !(1..=4096).contains(&m) { return Err("badcase:conc-size".into()); }
+    if c.flen < 48 + QLEN + 2 { return Err("badcase:flen-too-small".into()); }
+    if is_notify && c.id != 0 { return Err("badcase:notify-id".into()); }
+    let blen = (c.flen - 48 - QLEN) as usize;
+    let limits = limits_of(c.limit, c.id ^ c.flen, true);
+    let (trigger_id, marker_id, alive_id) = (c.id.wrapping_add(1), c.id.wrapping_add(2), c.id.wrapping_add(3));
+    let notify_body = Arc::new(if is_notify { pattern(blen) } else { vec![] });
+    let push_err: Arc<Mutex<Option<String>>> = Arc::new(Mutex::new(None));
+    let pushes = Arc::new(AtomicUsize::new(0));
+    let (nb, pe, pc) = (notify_body.clone(), push_err.clone(), pushes.clone());
+    let router = Router::new()
+        .with_json("/k", |_| Ok(json!(1)))
+        .with_json("/r", move |_| Ok(Value::String("a".repeat(blen - 2))))
+        .with_json_ctx("/p", move |ctx, _| {
+            let r = match ctx.peer() {
+                Some(p) => p.send_notify("/n", NotifyBody::Raw((*nb).clone(), BodyFormat::RawBinary)).map_err(|e| e.to_string()),
+                None => Err("no-peer".to_string()),
+            };
+            match r { Ok(()) => { pc.fetch_add(1, Ordering::SeqCst); } Err(e) => { pe.lock().unwrap().get_or_insert(e); } }
+            Ok(json!(1))
+        });
+    let log: Arc<Mutex<Vec<String>>> = Arc::new(Mutex::new(vec![]));
+    let lg = log.clone();
+    let l = WebSocketServer::listen("127.0.0.1:0").await.map_err(|e| format!("ws-bind:{e}"))?;
+    let addr = l.local_addr().map_err(|e| format!("ws-addr:{e}"))?;
+    let srv = WebSocketServer::new(router).with_limits(limits).on_error(move |err| {
+        if let repe::ConnectionError::OutboundTooLarge { .. } = err {
+            let line = format!("{:?} code={:?} {err}", std::time::SystemTime::now(), err.error_code());
+            lg.lock().unwrap().push(line);
+        }
+    });
+    let _tasks = Tasks(vec![tokio::spawn(async move { let _ = srv.serve_listener(l, "/repe").await; })]);
+
+    let barrier = Arc::new(tokio::sync::Barrier::new(k));
+    let request = if is_notify { frame(0, trigger_id, 1, 2, 0, b"/p", b"null") } else { frame(0, c.id, 1, 2, 0, b"/r", b"null") };
+    let mut workers = Vec::new();
+    for _ in 0..k {
+        let (barrier, request) = (barrier.clone(), request.clone());
+        workers.push(tokio::spawn(async move {
+            let conn = to(T_CONN, "raw-connect", tt::connect_async_with_config(format!("ws://{addr}/repe"), Some(big_cfg()), true)).await;
+            let mut peer = match conn { Ok(Ok((ws, _))) => Ok(Peer { ws, known: vec![trigger_id, marker_id, alive_id], seen: vec![], cands: vec![], dead: None }), Ok(Err(e)) => Err(format!("raw-connect:{e}")), Err(e) => Err(e) };
+            // first half: the connections start every round together (a connection that has failed keeps
+            // attending the barrier, so that the others are not held up); second half: each at its own pace
+            let mut failed: Option<String> = peer.as_ref().err().cloned();
+            for j in 0..m {
+                if j < m.div_ceil(2) { barrier.wait().await; }
+                let Ok(peer) = peer.as_mut() else { continue };
+                if failed.is_some() { continue; }
+                if let Err(e) = peer.send(request.clone()).await { failed = Some(e); continue; }
+                if is_notify {
+                    peer.pump(Instant::now() + T_MSG, |p| p.count(trigger_id) > j).await;
+                    if peer.count(trigger_id) <= j { failed = Some(format!("conc-no-trigger-reply:{j}:dead={}", peer.dead.clone().unwrap_or_default())); }
+                } else {
+                    peer.pump(Instant::now() + T_MSG, |p| p.cands.len() > j).await;
+                    if peer.cands.len() <= j { failed = Some(format!("conc-no-response:{j}:dead={}", peer.dead.clone().unwrap_or_default())); }
+                }
+            }
+            if let Some(e) = failed { return Err(e); }
+            let peer = peer.as_mut().map_err(|e| e.clone())?;
+            peer.send(frame(0, marker_id, 1, 2, 0, b"/k", b"null")).await?;
+            peer.pump(Instant::now() + T_MSG, |p| p.saw(marker_id).is_some()).await;
+            peer.pump(Instant::now() + GRACE, |_| false).await;
+            let mut alive = false;
+            if peer.dead.is_none() && peer.send(frame(0, alive_id, 1, 2, 0, b"/k", b"null")).await.is_ok() {
+                peer.pump(Instant::now() + T_CONN, |p| p.saw(alive_id).is_some()).await;
+                alive = peer.saw(alive_id).is_some_and(|r| r.as_slice() == frame(0, alive_id, 1, 2, 0, b"/k", b"1").as_slice());
+            }
+            Ok::<_, String>((std::mem::take(&mut peer.cands), alive, peer.dead.clone()))
+        }));
+    }
+    let expected = if is_notify { frame(1, 0, 1, 0, 0, b"/n", &notify_body) } else { frame(0, c.id, 1, 2, 0, b"/r", &json_string_body(blen)) };
+    let (mut token, mut all_alive, mut dead): (Option<String>, bool, Option<String>) = (None, true, None);
+    for w in workers {
+        let (cands, alive, d) = w.await.map_err(|_| "conc-worker-panicked".to_string())??;
+        all_alive &= alive;
+        if d.is_some() { dead = d; }
+        // one token per instance of this connection
+        let tokens: Vec<String> = if cands.is_empty() { vec!["none".to_string(); m] }
+            else if cands.len() == m { cands.iter().map(|x| sent_token(std::slice::from_ref(x), &expected)).collect::<Result<_, _>>()? }
+            else { return Err(format!("conc-instances-differ:{}-messages-for-{m}-instances", cands.len())); };
+        for t in tokens {
+            match &token { None => token = Some(t), Some(t0) if *t0 == t => {}, Some(t0) => return Err(format!("conc-instances-differ:{t0}|{t}")) }
+        }
+    }
+    if let Some(e) = push_err.lock().unwrap().clone() { return Err(format!("push-send:{e}")); }
+    if is_notify && pushes.load(Ordering::SeqCst) != k * m { return Err(format!("push-handler-runs:{}", pushes.load(Ordering::SeqCst))); }
+    let (n, total) = (log.lock().unwrap().len(), k * m);
+    // a report for every instance, for none, or for some of them only
+    let rep = if n == 0 { "0".to_string() } else if n == total { "1".to_string() } else { format!("mixed:{}/{}", hx(n as u64), hx(total as u64)) };
+    let mut obs = format!("sent={} rep={} alive={} inst={}", token.unwrap_or_else(|| "none".into()), rep, all_alive as u8, hx(total as u64));
+    if let Some(d) = &dead { obs.push_str(&format!(" dead={}", clean(d))); }
+    Ok(obs)
+}
+
 // ---------------------------------------------------------------- client paths
+
+/// A JSON string of exactly `n` bytes whose serialisation parks until `go`: the caller is held between
+/// taking its request id and the outbound guard, by nothing but a slow `Serialize` implementation.
+struct Parked { n: usize, entered: Arc<AtomicBool>, go: Arc<(Mutex<bool>, Condvar)> }
+impl serde::Serialize for Parked {
+    fn serialize<S: serde::Serializer>(&self, ser: S) -> Result<S::Ok, S::Error> {
+        self.entered.store(true, Ordering::SeqCst);
+        let (m, cv) = &*self.go;
+        let g = m.lock().unwrap();
+        let _g = cv.wait_timeout_while(g, T_MSG, |go| !*go).unwrap();
+        drop(_g);
+        ser.serialize_str(&"a".repeat(self.n - 2))
+    }
+}
+async fn wait_flag(f: &AtomicBool, what: &str) -> Result<(), String> {
+    let t0 = Instant::now();
+    while !f.load(Ordering::SeqCst) {
+        if t0.elapsed() > T_CONN { return Err(format!("timeout:{what}")); }
+        tokio::time::sleep(Duration::from_millis(1)).await;
+    }
+    Ok(())
+}
 
 async fn run_client_path(c: &Case) -> Result<String, String> {
     let is_notify = c.path == "cnotify";
     let blen = (c.flen - 48 - QLEN) as usize;
     if c.id == 0 || c.id > 64 { return Err("badcase:client-id".into()); }
     if c.qlen.is_some() { return Err("badcase:qlen".into()); }
+    if c.park && blen < 2 { return Err("badcase:flen-too-small".into()); }
     let body = pattern(blen);
+    // park: a second call (`/h`) is held in flight by the raw server until `release`
+    let (h_seen, release) = (Arc::new(AtomicBool::new(false)), Arc::new(tokio::sync::Notify::new()));
+    let (hs, rl) = (h_seen.clone(), release.clone());
     let recorded: Arc<Mutex<Vec<Vec<u8>>>> = Arc::new(Mutex::new(vec![]));
     let mut tasks = Tasks(vec![]);
     let l = tokio::net::TcpListener::bind("127.0.0.1:0").await.map_err(|e| format!("raw-bind:{e}"))?;
@@ -292,17 +528,28 @@ async fn run_client_path(c: &Case) -> Result<String, String> {
         let Ok((s, _)) = l.accept().await else { return };
         let _ = s.set_nodelay(true);
         let Ok(mut ws) = tt::accept_async_with_config(s, Some(big_cfg())).await else { return };
-        while let Some(Ok(m)) = ws.next().await {
+        let mut held: Option<Vec<u8>> = None;
+        loop {
+            let m = tokio::select! {
+                _ = rl.notified(), if held.is_some() => {
+                    if let Some(r) = held.take() { if ws.send(WsMsg::Binary(r)).await.is_err() { break; } }
+                    continue;
+                }
+                m = ws.next() => match m { Some(Ok(m)) => m, _ => break },
+            };
             match m {
                 WsMsg::Binary(b) => {
                     let b: Vec<u8> = b.into();
+                    let mut hold = false;
                     let reply = if b.len() >= 48 && b[11] == 0 {
                         let ql = le64(&b[24..32]);
                         let q = if ql <= (b.len() - 48) as u64 { &b[48..48 + ql as usize] } else { &b[48..48] };
+                        hold = q == b"/h";
                         Some(frame(0, le64(&b[16..24]), 1, 2, 0, q, b"1"))
                     } else { None };
                     rec.lock().unwrap().push(b);
-                    if let Some(r) = reply { if ws.send(WsMsg::Binary(r)).await.is_err() { break; } }
+                    if hold { held = reply; hs.store(true, Ordering::SeqCst); }
+                    else if let Some(r) = reply { if ws.send(WsMsg::Binary(r)).await.is_err() { break; } }
                 }
                 WsMsg::Close(_) => break,
                 _ => {}
@@ -315,23 +562,59 @@ async fn run_client_path(c: &Case) -> Result<String, String> {
     for k in 1..c.id {
         match to(T_CONN, "pre-call", client.call_json("/k", &json!(1))).await? { Ok(v) if v == json!(1) => {} Ok(v) => return Err(format!("pre-call:{k}:value:{v}")), Err(e) => return Err(format!("pre-call:{k}:{e}")) }
     }
-    let res: Result<(), RepeError> = if is_notify {
+    let mut in_flight = None;
+    let res: Result<(), RepeError> = if c.park {
+        // The message under test is built from a value whose serialisation is slow (parked): its caller has
+        // taken its request id and not yet reached the outbound guard when a second, ordinary call is started
+        // and reaches the server, where it stays unanswered for now. Then the first call goes on (is sent, or
+        // refused locally). "In every case the connection stays usable": a third, small call made at that
+        // moment must succeed, and the call in flight must complete normally once it is answered.
+        let (entered, go) = (Arc::new(AtomicBool::new(false)), Arc::new((Mutex::new(false), Condvar::new())));
+        let value = Parked { n: blen, entered: entered.clone(), go: go.clone() };
+        let cl = client.clone();
+        let a = tokio::spawn(async move { if is_notify { cl.notify_json("/n", &value).await } else { cl.call_json("/r", &value).await.map(|_| ()) } });
+        let started = wait_flag(&entered, "park:serialisation-not-started").await;
+        let cl = client.clone();
+        let b = tokio::spawn(async move { cl.call_json("/h", &json!(1)).await });
+        let reached = match started { Ok(()) => wait_flag(&h_seen, "park:second-call-not-on-the-wire").await, e => e };
+        *go.0.lock().unwrap() = true;
+        go.1.notify_all();
+        in_flight = Some(b);
+        let r = to(T_MSG, "client-parked", a).await?.map_err(|_| "park:caller-panicked".to_string())?;
+        reached?;
+        r
+    } else if is_notify {
         to(T_MSG, "client-notify", client.notify_with_formats("/n", 1, Some(&body), 0)).await?
     } else {
         to(T_MSG, "client-call", client.call_with_formats("/r", 1, Some(&body), 0)).await?.map(|_| ())
     };
     let rep = match res { Ok(()) => 0, Err(RepeError::MessageTooLarge { .. }) => 1, Err(e) => return Err(format!("client-send:{e}")) };
-    let alive = matches!(tokio::time::timeout(T_CONN, client.call_json("/k", &json!(1))).await, Ok(Ok(v)) if v == json!(1));
+    let third = tokio::time::timeout(T_CONN, client.call_json("/k", &json!(1))).await;
+    let mut alive = matches!(&third, Ok(Ok(v)) if *v == json!(1));
+    let mut notes = String::new();
+    if c.park && !alive { notes.push_str(&format!(" third={}", clean(match &third { Ok(Ok(v)) => format!("value:{v}"), Ok(Err(e)) => e.to_string(), Err(_) => "timeout".into() }))); }
+    if let Some(b) = in_flight {
+        release.notify_one();
+        let second = tokio::time::timeout(T_CONN, b).await;
+        let ok = matches!(&second, Ok(Ok(Ok(v))) if *v == json!(1));
+        if !ok { alive = false; notes.push_str(&format!(" second={}", clean(match &second { Ok(Ok(Ok(v))) => format!("value:{v}"), Ok(Ok(Err(e))) => e.to_string(), Ok(Err(_)) => "panicked".into(), Err(_) => "timeout".into() }))); }
+    }
     tokio::time::sleep(GRACE).await;
     let all = recorded.lock().unwrap().clone();
     let small = |m: &Vec<u8>| m.len() == 48 + 2 + 1 && &m[48..50] == b"/k" && m[11] == 0;
+    // the held call of a park case is auxiliary traffic like the small calls
+    let held = |m: &Vec<u8>| c.park && m.len() == 48 + 2 + 1 && &m[48..50] == b"/h" && m[11] == 0;
     let nsmall = all.iter().filter(|m| small(m)).count() as u64;
-    let cands: Vec<Vec<u8>> = all.into_iter().filter(|m| !small(m)).collect();
-    let expected = frame(is_notify as u8, c.id, 1, 0, 0, if is_notify { b"/n" } else { b"/r" }, &body);
+    let nheld = all.iter().filter(|m| held(m)).count() as u64;
+    let cands: Vec<Vec<u8>> = all.into_iter().filter(|m| !small(m) && !held(m)).collect();
+    let expected = if c.park { frame(is_notify as u8, c.id, 1, 2, 0, if is_notify { b"/n" } else { b"/r" }, &json_string_body(blen)) }
+        else { frame(is_notify as u8, c.id, 1, 0, 0, if is_notify { b"/n" } else { b"/r" }, &body) };
     let sent = sent_token(&cands, &expected)?;
     let cid = match cands.first() { Some(m) if m.len() >= 48 => hx(le64(&m[16..24])), _ => "-".into() };
     let mut obs = format!("sent={} rep={} alive={} cid={}", sent, rep, alive as u8, cid);
     if alive && nsmall != c.id { obs.push_str(&format!(" smallcalls={}", hx(nsmall))); }
+    if c.park && nheld != 1 { obs.push_str(&format!(" heldcalls={}", hx(nheld))); }
+    obs.push_str(&notes);
     Ok(obs)
 }
 
@@ -340,16 +623,27 @@ fn run_case(line: &str) -> String {
     let parsed = (|| -> Option<Case> {
         let limit = match f.get("limit")?.as_str() { "-" => None, s => Some(ph(s)?) };
         let qlen = match f.get("qlen") { Some(s) => Some(ph(s)?), None => None };
-        Some(Case { path: f.get("path")?.clone(), limit, flen: ph(f.get("flen")?)?, id: ph(f.get("id")?)?, qlen, ec: f.get("ec").and_then(|e| ph(e)).unwrap_or(0) as u32, burst: f.get("burst").map(|b| b == "1").unwrap_or(false) })
+        let flag = |k: &str| f.get(k).map(|b| b == "1").unwrap_or(false);
+        let num = |k: &str| match f.get(k) { Some(s) => ph(s), None => Some(0) };
+        Some(Case { path: f.get("path")?.clone(), limit, flen: ph(f.get("flen")?)?, id: ph(f.get("id")?)?, qlen, ec: f.get("ec").and_then(|e| ph(e)).unwrap_or(0) as u32, burst: flag("burst"),
+                    pipe: flag("pipe"), quit: flag("quit"), park: flag("park"), conc: num("conc")?, reps: num("reps")? })
     })();
     let Some(c) = parsed else { return "crash=badcase:parse".into() };
     if c.flen < 48 + QLEN || c.flen > (1 << 31) { return "crash=badcase:flen".into(); }
     let r = guard(move || {
-        net::runtime().block_on(async {
-            let is_client = c.path == "creq" || c.path == "cnotify";
-            let fut = async { if is_client { run_client_path(&c).await } else { run_server_path(&c).await } };
+        let is_client = c.path == "creq" || c.path == "cnotify";
+        if c.park && !is_client { return Err("badcase:park".to_string()); }
+        let (single, conc) = (c.pipe || c.quit, c.conc != 0);
+        let fut = async {
+            let fut = async { if conc { run_conc(&c).await } else if is_client { run_client_path(&c).await } else if c.quit { run_quit_rounds(&c).await } else { run_server_path(&c).await } };
             match tokio::time::timeout(T_CASE, fut).await { Ok(r) => r, Err(_) => Err("timeout:case".into()) }
-        })
+        };
+        // pipe / quit: server and raw peer share ONE thread, so that the connection's reader runs up to its
+        // next wait (both pipelined requests handled; handler returned and reply queued) before the
+        // connection's writer task sees any of the queued messages
+        if single {
+            match tokio::runtime::Builder::new_current_thread().enable_all().build() { Ok(rt) => rt.block_on(fut), Err(e) => Err(format!("runtime:{e}")) }
+        } else if conc { conc_runtime().block_on(fut) } else { net::runtime().block_on(fut) }
     });
     match r { Ok(Ok(obs)) => obs, Ok(Err(e)) => format!("crash={}", clean(e)), Err(()) => "crash=panic".into() }
 }
@@ -359,6 +653,7 @@ fn gen_cases(seed: u64, thorough: bool) -> Vec<String> {
     let mut limits: Vec<Option<u64>> = vec![Some(0x400), Some(0x1000), Some(0x10000), Some(0x100000)];
     if thorough { limits.push(Some(0x1000000)); }
     limits.push(None);
+    let limits_all = limits.clone();
     let nrand = if thorough { 10 } else { 2 };
     let min = 48 + QLEN + 2;
     let mut out = Vec::new();
@@ -420,6 +715,33 @@ fn gen_cases(seed: u64, thorough: bool) -> Vec<String> {
             }
         }
     }
+    // ---- arrangements around the seven paths (same abstract cases, driven differently)
+    let some: Vec<u64> = limits_all.iter().flatten().copied().collect();
+    let mut extra: Vec<String> = Vec::new();
+    for l in &some {
+        for flen in [*l, l + 1, 2 * l] {
+            // a small reply queued immediately before the handler-pushed notify, on a connection that then stays idle
+            extra.push(format!("path=push limit={} flen={} id=0 ntf=1 ec=0 pipe=1", hx(*l), hx(flen)));
+            // [notify, small reply] queued at the moment the connection's shutdown is requested
+            extra.push(format!("path=push limit={} flen={} id=0 ntf=1 ec=0 quit=1", hx(*l), hx(flen)));
+        }
+    }
+    // many connections of one server at once
+    for l in [0x400u64, 0x1000] {
+        for flen in [l, l + 1, 2 * l] {
+            // (a delivered notify and the trigger's reply are two writes on a socket without TCP_NODELAY: 40 ms a round)
+            extra.push(format!("path=push limit={} flen={} id=0 ntf=1 ec=0 conc=10 reps={}", hx(l), hx(flen), hx(if flen > l { CONC_REPS } else { 16 })));
+            extra.push(format!("path=inline limit={} flen={} id={} ntf=0 ec=0 conc=10 reps={}", hx(l), hx(flen), hx(rng.next()), hx(CONC_REPS)));
+        }
+    }
+    // a client request / notify whose serialisation is slow while another call is in flight
+    for l in [0x400u64, 0x10000] {
+        for flen in [l, l + 1, 2 * l] {
+            extra.push(format!("path=creq limit={} flen={} id={} ntf=0 ec=0 park=1", hx(l), hx(flen), hx(rng.range(1, 4))));
+            extra.push(format!("path=cnotify limit={} flen={} id={} ntf=1 ec=0 park=1", hx(l), hx(flen), hx(rng.range(1, 4))));
+        }
+    }
+    for e in extra { let i = out.len(); out.push(format!("i={i} {e}")); }
     out
 }
 
